@@ -3,7 +3,6 @@
 package index
 
 import (
-	"bytes"
 	"io"
 	"os"
 
@@ -91,33 +90,21 @@ func (d verifCodecSnapshotDir) Load(kind string, id uint64) (*segment.Data, io.C
 }
 
 // VerifCodecLoadSnapshot runs the real (*Writer).loadSnapshot on the snapshot item
-// `epoch` of dir (decode, CRC comparison, close). Segment plugins for the
-// (type, version) pairs named by the file are registered as stubs first, so
-// that the result reflects the codec and checksum only.
-func VerifCodecLoadSnapshot(dir Directory, epoch uint64, validateCRC bool) ([]VerifCodecSeg, error) {
+// `epoch` of dir (decode, CRC comparison, close). Stub segment plugins are
+// registered for the given (type, version) pairs and every segment load is
+// answered with empty data, so the result reflects the codec and checksum only.
+func VerifCodecLoadSnapshot(dir Directory, epoch uint64, validateCRC bool, plugins []VerifCodecSeg) ([]VerifCodecSeg, error) {
 	cfg := defaultConfig()
 	cfg.ValidateSnapshotCRC = validateCRC
-	// learn which plugins the file names (best effort; the real load follows)
-	if data, closer, err := dir.Load(ItemKindSnapshot, epoch); err == nil {
-		if data.Len() >= crcWidth {
-			if payload, err2 := data.Read(0, data.Len()-crcWidth); err2 == nil {
-				probe := &Snapshot{}
-				_, _ = probe.ReadFrom(bytes.NewReader(append([]byte(nil), payload...)))
-				for _, ss := range probe.segment {
-					typ, ver := ss.segmentType, ss.segmentVersion
-					cfg = cfg.WithSegmentPlugin(&SegmentPlugin{
-						Type:    typ,
-						Version: ver,
-						Load: func(*segment.Data) (segment.Segment, error) {
-							return &verifCodecStubSegment{typ: typ, ver: ver}, nil
-						},
-					})
-				}
-			}
-		}
-		if closer != nil {
-			_ = closer.Close()
-		}
+	for _, p := range plugins {
+		typ, ver := p.Type, p.Version
+		cfg = cfg.WithSegmentPlugin(&SegmentPlugin{
+			Type:    typ,
+			Version: ver,
+			Load: func(*segment.Data) (segment.Segment, error) {
+				return &verifCodecStubSegment{typ: typ, ver: ver}, nil
+			},
+		})
 	}
 	w := &Writer{config: cfg, directory: verifCodecSnapshotDir{dir}}
 	snap, err := w.loadSnapshot(epoch)
